@@ -32,7 +32,7 @@ CHECKS = {
                 text="For every accepted source of a corpus of hand-designed unusual declarations (OUT equal to a parameter, no parameters, no body variables, redefinitions with other arities and frame sizes, repeated parameter names whenever the front end accepts them) and of generated programs, TLC evaluates StaticOK over the instruction array and AbsSafe/AbsDepth in every state of the abstract machine that takes both branches of every conditional jump, i.e. on every control path. A sample is run instruction by instruction on the sanitizer build and every step must be explainable by a guarded TheoVM action (NoStuck)."),
     "C16": dict(level="model_checking", ref="5 (C16), 4.3",
                 technique="TLC model checking of TheoSem.tla under weak fairness (<>Done, LoopCount, DepthBound, CallsGoDown) on generated WHILE/GOTO-free ASTs + trace validation of the real runs of the same sources; depth bound on every real run",
-                text="Accept side: TheoSem's termination, loop-count and depth invariants are model-checked on the ASTs of generated LOOP-only sources (bodies assign to their bounds, nested loops sharing lines, loops from macro bodies); the real compiler+VM must then produce exactly the reference line events and halt (TheoSemTrace), and the activation depth of every real run is bounded by definitions+1. Reject side (self/forward/mutual references across files and redefinitions) is exercised through C04's static-rule skeletons once TheoParse is in place; until then only the accept side is claimed here."),
+                text="Accept side: TheoSem's termination, loop-count and depth invariants are model-checked on the ASTs of generated LOOP-only sources (bodies assign to their bounds, nested loops sharing lines, loops from macro bodies); the real compiler+VM must then produce exactly the reference line events and halt (TheoSemTrace), and the activation depth of every real run is bounded by definitions+1. Reject side: TheoParse's reference skeletons (definitions of f and g with calls of several arities in bodies and in the main part, redefinitions) to depth 8 (thorough 9), spread over included files, are compiled for real and the verdict must equal the specification's (a call is accepted only if its target's definition is complete earlier)."),
     "C08": dict(level="model_checking", ref="5 (C08), 4.1",
                 technique="TLC evaluation of TablesOK / LocsRealInv (TheoVM.tla, TheoVMAbs.tla) on the real tables of adversarial and generated layouts + I->S validation of debugger histories (StopExact, BrkSync)",
                 text="For every accepted source of a layout corpus (hand-designed patterns: headers re-entering a line that owns a site, END supplied by an included file, several headers on one line, macro bodies in other files, labels alone on a line; generated free/dense/sparse layouts with includes at token boundaries) TLC evaluates on the tables the real compiler emitted: the two tables are exact inverses, listed sites are exactly the break instructions, no location in the hidden file, every location is a line carrying program text. Debugger histories on a sample are validated with StopExact and BrkSync, which ties 'can be enabled' to 'stepping can report it'."),
@@ -45,6 +45,12 @@ CHECKS = {
     "C15": dict(level="model_checking", ref="5 (C15), 4.5",
                 technique="TLC model checking of TheoInclude.tla (termination under weak fairness, DepthOK, ReqsOK) with exhaustive enumeration of include graphs, S->I replay into Theo::scan / Theo::compile",
                 text="TheoInclude mirrors the scanner's include stack, one action per branch; TLC checks termination, stack-depth and request invariants and enumerates all ~500k configurations of 3 files with up to 2 items each (token, include of each file or of an absent name, include without a name, bare include at end of file) times every choice of main including an absent one, plus random graphs over 4-7 files. Each is rendered and scanned for real: tokens with files and lines, errors by type, file and line and the request set must agree; Theo::compile's file_requests are compared on a sample."),
+    "C04": dict(level="model_checking", ref="5 (C04), 4.8",
+                technique="TLC enumeration of the TheoParse.tla push-down automaton (LL(1) grammar + static rules + sugar): viable prefixes, sentences, refused extensions, chunk-level skeletons, decider on mutated programs; S->I verdict equality in both directions",
+                text="TheoParse is the accept/reject oracle. TLC's BFS over its Feed action yields every viable prefix of <= 8 (thorough 10) tokens, every sentence and every refused one-token extension, the same after a prelude that defines a program (so that complete calls and their near misses are in reach), chunk-level skeletons (definitions x calls x arities x labels x literals incl. out-of-range ones) and reference skeletons; 1-4 token mutations of generated programs are decided by the automaton in decider mode. Every case is compiled by the real compiler and the verdict must be equal: sentences obeying the static rules must compile, everything else must be marked incorrect with at least one error."),
+    "C02": dict(level="exploration", ref="5 (C02), 4.9",
+                technique="grammar-automaton-generated and mutated inputs compiled on the ASan/UBSan build; result shapes validated by TLC against TheoIface.tla (ResultOK); abort/timeout events have no explaining action",
+                text="About 2*10^5 inputs per quick run: every state of the TheoParse automaton within the bounds (sentences, viable prefixes cut off by end of file, refused extensions also followed by a valid continuation), hand-written truncations (argument list ending in a comma, header without ports, DEFINE cut off at every position, stray template/insertion tokens, numbers of any length, empty and absent files), random byte strings and word soups, 1-4 token mutations of generated programs with macros and includes. Each compilation runs on the sanitizer build (1 GB stack, LeakSanitizer at exit, per-batch timeout); one event per compilation is validated by TLC against ResultOK (correct <=> no errors; every error has a message and a location inside a supplied file, the hidden macro file or the '-' placeholder)."),
 }
 
 NOT_YET = "check not built yet in this session (construction order in DESIGN.md section 10); will be claimed when its check exists"
